@@ -139,6 +139,45 @@ theorem listKeys_spec (k : Nat) : (listKeys (k + 1)).head? = some (List.replicat
 
 example : keysToTuples [[("x2", 1)], [("x10", 2), ("x2", 1)], []] = (["x10", "x2"], [[0, 1], [2, 1], [0, 0]]) := by decide +kernel
 
+/-! ### subspace_indices → blocks -/
+
+theorem mem_blockStates (labels : List Nat) (b a : Nat) : a ∈ blockStates labels b ↔ ∃ h : a < labels.length, labels[a] = b := by
+  unfold blockStates
+  simp only [List.mem_filter, List.mem_range, beq_iff_eq]
+  constructor
+  · rintro ⟨h, hb⟩; exact ⟨h, by simpa [List.getD_eq_getElem?_getD, List.getElem?_eq_getElem h] using hb⟩
+  · rintro ⟨h, hb⟩; exact ⟨h, by simpa [List.getD_eq_getElem?_getD, List.getElem?_eq_getElem h] using hb⟩
+
+/-- inside a block the states keep their order of appearance (strictly increasing positions): no state twice -/
+theorem blockStates_sorted (labels : List Nat) (b : Nat) : (blockStates labels b).Pairwise (· < ·) := by
+  unfold blockStates
+  exact List.Pairwise.filter _ (List.pairwise_lt_range)
+
+theorem le_foldl_max' (l : List Nat) (m x : Nat) (hx : x ∈ l) : x ≤ l.foldl max m := by
+  induction l generalizing m with
+  | nil => simp at hx
+  | cons y ys ih =>
+    have hge : ∀ (l' : List Nat) (m' : Nat), m' ≤ l'.foldl max m' := by
+      intro l'; induction l' with
+      | nil => intro m'; simp
+      | cons z zs ihz => intro m'; exact le_trans (le_max_left _ _) (ihz _)
+    rcases List.mem_cons.mp hx with rfl | h
+    · exact le_trans (le_max_right _ _) (hge ys _)
+    · exact ih _ h
+
+/-- the blocks partition the states: every state lies in exactly one block, the one its label names -/
+theorem subspaces_partition (labels : List Nat) (a : Nat) (ha : a < labels.length) :
+    ∃ hb : labels[a] < (subspaces labels).length, a ∈ (subspaces labels)[labels[a]] ∧
+      ∀ b (hb' : b < (subspaces labels).length), a ∈ (subspaces labels)[b] → b = labels[a] := by
+  have hlen : (subspaces labels).length = labels.foldl max 0 + 1 := by simp [subspaces]
+  have hle : labels[a] ≤ labels.foldl max 0 := le_foldl_max' labels 0 _ (List.getElem_mem ha)
+  refine ⟨by omega, ?_, ?_⟩
+  · simp only [subspaces, List.getElem_map, List.getElem_range]
+    exact (mem_blockStates labels _ a).2 ⟨ha, rfl⟩
+  · intro b hb' hmem
+    simp only [subspaces, List.getElem_map, List.getElem_range] at hmem
+    obtain ⟨_, h⟩ := (mem_blockStates labels b a).1 hmem
+    exact h.symm
+
 end Formats
 end Pyma
-#print axioms Pyma.Formats.symbolsOf_perm
